@@ -459,9 +459,12 @@ func runConc(c Case, tmp string, res *lib.Result) {
 	errs := make([]error, len(c.Par))
 	run := func(i int, op Op) {
 		defer wg.Done()
-		if op.K == "put" {
+		switch op.K {
+		case "put":
 			errs[i] = w.put(ctx, op.A)
-		} else {
+		case "list": // a listing of subject 0 that runs while an update is in flight
+			_, errs[i] = w.list(ctx, 0, 0)
+		default:
 			errs[i] = w.del(ctx, op.A)
 		}
 	}
@@ -476,6 +479,9 @@ func runConc(c Case, tmp string, res *lib.Result) {
 		var once sync.Once
 		w.hook = func(req *http.Request) {
 			isTagWrite := (req.Method == "PUT" || req.Method == "DELETE") && strings.HasSuffix(req.URL.Path, "/manifests/"+tag0)
+			if c.Gate == "putlist" || c.Gate == "dellist" { // the update is held at the request that stores / removes the artifact itself
+				isTagWrite = (req.Method == "PUT" || req.Method == "DELETE") && strings.Contains(req.URL.Path, "/manifests/sha256:")
+			}
 			isTagRead := (req.Method == "GET" || req.Method == "HEAD") && strings.HasSuffix(req.URL.Path, "/manifests/"+tag0)
 			mu.Lock()
 			st := state
@@ -550,9 +556,10 @@ func runConc(c Case, tmp string, res *lib.Result) {
 			res.Fail("conc-update-failed backend="+c.Backend, fmt.Sprintf("concurrent %s of artifact %d failed: %v", c.Par[i].K, c.Par[i].A, err), c)
 			return
 		}
-		if c.Par[i].K == "put" {
+		switch c.Par[i].K {
+		case "put":
 			live[c.Par[i].A] = true
-		} else {
+		case "del":
 			delete(live, c.Par[i].A)
 		}
 	}
@@ -650,6 +657,15 @@ func genCase(r *lib.Rand) Case {
 			c.Gate = "putput"
 			c.Par = []Op{{K: "put", A: 1}, {K: "put", A: 2}}
 		}
+		if c.Seed%3 == 0 { // an update in flight while the subject is listed through the same client, then listed again
+			c.Backend = []string{"api", "api-page1", "tag", "api"}[(c.Seed/3)%4]
+			c.Cache = true
+			if (c.Seed/12)%2 == 0 {
+				c.Gate, c.Pre, c.Par = "putlist", []int{0}, []Op{{K: "put", A: 1}, {K: "list"}}
+			} else {
+				c.Gate, c.Pre, c.Par = "dellist", []int{0, 1}, []Op{{K: "del", A: 0}, {K: "list"}}
+			}
+		}
 	}
 	return c
 }
@@ -681,6 +697,10 @@ func Run(o lib.Opts) {
 	all := []Case{
 		{Kind: "gate", Seed: 31, Backend: "tag", Gate: "delput", Pre: []int{0}, Par: []Op{{K: "del", A: 0}, {K: "put", A: 1}}},
 		{Kind: "gate", Seed: 32, Backend: "tag", Gate: "delput", Pre: []int{0}, Par: []Op{{K: "put", A: 1}, {K: "del", A: 0}}},
+		{Kind: "gate", Seed: 34, Backend: "api", Cache: true, Gate: "putlist", Pre: []int{0}, Par: []Op{{K: "put", A: 1}, {K: "list"}}},
+		{Kind: "gate", Seed: 35, Backend: "api", Cache: true, Gate: "dellist", Pre: []int{0, 1}, Par: []Op{{K: "del", A: 0}, {K: "list"}}},
+		{Kind: "gate", Seed: 36, Backend: "tag", Cache: true, Gate: "putlist", Pre: []int{0}, Par: []Op{{K: "put", A: 1}, {K: "list"}}},
+		{Kind: "gate", Seed: 37, Backend: "tag", Cache: true, Gate: "dellist", Pre: []int{0, 1}, Par: []Op{{K: "del", A: 0}, {K: "list"}}},
 		{Kind: "gate", Seed: 33, Backend: "tag", Gate: "putput", Par: []Op{{K: "put", A: 1}, {K: "put", A: 2}}},
 		{Kind: "seq", Seed: 34, Backend: "api", Cache: true, Ops: []Op{{K: "put", A: 0}, {K: "put", A: 1}, {K: "list", S: 0, F: 1}, {K: "list", S: 0}, {K: "del", A: 0}, {K: "list", S: 0}, {K: "list", S: 0, F: 2}}},
 		{Kind: "seq", Seed: 35, Backend: "tag", Cache: true, Ops: []Op{{K: "put", A: 0}, {K: "list", S: 0, F: 2}, {K: "put", A: 1}, {K: "list", S: 0}, {K: "del", A: 1}, {K: "del", A: 0}, {K: "list", S: 0}, {K: "put", A: 0}, {K: "list", S: 0}}},
